@@ -168,6 +168,19 @@ PROPS = {
             dict(name="VerifPredictorLZW"),
         ],
     ),
+    "C18": dict(
+        pkg=PD,
+        explanation="the writer's structural kernels executed symbolically, each checked by an independent non-repairing reader written in the harness: writeObject (recorded offset = position of the 'n g obj' header, running offset = bytes written) from a symbolic file position; writeXRefTable/writeXRefSubsection/writeTrailerDict (20-byte entries, subsections, startxref, every table entry exactly once) on an arbitrary small table; writeXRefStream/createXRefStream/int64ToBuf/writeStreamDictObject/writeStream (/W rows, /Index, own entry, /Size, /Length = byte count, startxref) with compression replaced by the identity; addObjectStreamObject/Finalize (prolog, offsets, token boundary between neighbours); EnsureValidFreeList from an arbitrary table with arbitrary (dangling, cyclic) links under every map-iteration starting point",
+        outside="whole documents: the order and completeness of object writing, encryption, incremental updates, linearisation, the header/EOF lines, stream /Length of content/image streams (same writeStream kernel, different producers), offsets above the bounds; map iteration orders other than rotations of insertion order",
+        assumptions=["offsets below 10^10 (the classic xref entry cannot represent more)", "object stream indices < 100 and generations <= 65535 (what the writer produces)"],
+        harnesses=[
+            dict(name="VerifObjectStreamLayout", bounds=dict(quick=dict(K=2, S=1, INTMAX=999), thorough=dict(K=3, S=1, INTMAX=999)), opts=dict(unwind=300, wall_timeout=6000)),
+            dict(name="VerifWriteObjectOffsets", bounds=dict(quick=dict(OBJMAX=99, GENMAX=9, S=1), thorough=dict(OBJMAX=999, GENMAX=99, S=2)), opts=dict(unwind=300, timeout_ms=60000)),
+            dict(name="VerifXRefTableSection", bounds=dict(quick=dict(OBJ=2, OFFMAX=999), thorough=dict(OBJ=3, OFFMAX=9999)), opts=dict(unwind=400, enc="int", timeout_ms=60000)),
+            dict(name="VerifXRefStreamSection", bounds=dict(quick=dict(OBJ=2, POSMAX=300), thorough=dict(OBJ=2, POSMAX=70000)), opts=dict(unwind=400, timeout_ms=60000)),
+            dict(name="VerifFreeList", pkg=MO, bounds=dict(quick=dict(OBJ=2), thorough=dict(OBJ=3)), opts=dict(unwind=100, maprotate=True, wall_timeout=6000)),
+        ],
+    ),
     "C20": dict(
         pkg=MO,
         explanation="model.EqualObjects (with equalDicts/equalArrays and one-level dereferencing through an XRefTable) executed symbolically on pairs of object trees of depth <= 2 (leaf, array or dict of <= W entries; leaf kinds null, Boolean, Integer, Name, StringLiteral, HexLiteral, indirect reference to a defined or undefined object) with symbolic leaf values: whenever it answers 'equal' an independent structural comparison must agree",
